@@ -48,6 +48,11 @@ func verifC13_ProxyMatcher() {
 	}
 	for i := 0; i < nh; i++ {
 		sm, ok := vMatcher("filter.header", i == 0)
+		if i == nh-1 && verifBool("filter.header.isNull") {
+			// `X-B: null` in the YAML: a key without a matcher cannot work
+			sm, ok = nil, false
+			verifCover("null-header-matcher")
+		}
 		filter.Headers[keys[i]] = sm
 		want = want && ok
 	}
